@@ -226,6 +226,9 @@ class SeqGen:
                                              for o in bops if o["op"] == "bp.insert"])
                     bops += self.g.seg_marker_ops(bid, names, info)
                 ops += bops
+                if (N + len(ops)) % 7 == 0:
+                    # the channel holds a raw array first; the blueprint then replaces it completely
+                    ops.append({"op": "el.addArray", "id": eid, "ch": ch, "wfm": [q(0.125)] * N, "SR": enc(SR), "kw": []})
                 ops.append({"op": "el.addBP", "id": eid, "ch": ch, "bp": bid})
             if r.random() < flags_p:
                 ops.append({"op": "el.addFlags", "id": eid, "ch": ch,
@@ -255,7 +258,10 @@ class SeqGen:
                 sub = self.g.fresh("s")
                 ops += [{"op": "sq.new", "id": sub}, {"op": "sq.setSR", "id": sub, "v": enc(SR)}]
                 K = r.randint(1, 3)
-                for p2 in range(1, K + 1):
+                inner = list(range(1, K + 1))
+                if (n + K) % 3 == 1:
+                    inner.reverse()          # the subsequence's positions filled out of ascending order
+                for p2 in inner:
                     eid = self.g.fresh("e")
                     order = r.sample(chans, len(chans)) if permute else list(chans)
                     ops += self.element(eid, SR, n, order, raw_p=raw_p, kinds=kinds, flags_p=flags_p, waits=waits, markers=markers, nseg=nseg)
